@@ -1,8 +1,9 @@
 (* C08 — binding converts text exactly or rejects it; never wraps.  Statements only; proofs in
    Bind/ValueBinderProofs.v.  [denotes s z]: s is an optional sign and at least one ASCII digit and z is
    its decimal value.  The tables binder_scalars / binder_slices / bind_kinds are regenerated from
-   binder.go / bind.go on every run.  Integer and unsigned families; floats, durations, times and
-   unmarshalers are oracles (see DESIGN). *)
+   binder.go / bind.go on every run.  Integer and unsigned families are parsed by the model; floats, bools and durations
+   are parsed by the standard library, which enters as the oracle [orc] (every theorem holds for every
+   oracle); times and unmarshalers are not modelled (see DESIGN). *)
 From Coq Require Import List Bool ZArith String.
 From Echo Require Import Base.Sx Bind.ParseNum Bind.ValueBinder Bind.ValueBinderProofs Gen.Src_binder.
 Import ListNotations.
@@ -30,39 +31,61 @@ Proof. exact (conj scalars_ok (conj slices_ok kinds_ok)). Qed.
 Print Assumptions C08_tables_consistent.
 
 (* hence a value-binder call that reports no error stored exactly the number the text denotes *)
-Theorem C08_scalar_no_wrap : forall name e v dest x, find_entry binder_scalars name = Some e -> int_fam e = true ->
-  v <> [] -> scalar_call e v dest = (x, false) -> parse (fam e) (bits e) v = Some x.
-Proof. intros name e v dest x F. apply scalar_exact. eapply find_entry_ok; [exact scalars_ok|exact F]. Qed.
+Theorem C08_scalar_no_wrap : forall orc name e v dest x, find_entry binder_scalars name = Some e -> int_fam e = true ->
+  v <> [] -> scalar_call orc e v dest = (x, false) -> parse orc (fam e) (bits e) v = Some x.
+Proof. intros orc name e v dest x F. apply scalar_exact. eapply find_entry_ok; [exact scalars_ok|exact F]. Qed.
 Print Assumptions C08_scalar_no_wrap.
 
-Theorem C08_slice_no_wrap : forall name e vs xs, find_entry binder_slices name = Some e -> int_fam e = true ->
-  fill e false vs = (xs, false) -> map (parse (fam e) (bits e)) vs = map Some xs.
-Proof. intros name e vs xs F Hf. apply fill_exact; [eapply find_entry_ok; [exact slices_ok|exact F]|exact Hf]. Qed.
+Theorem C08_slice_no_wrap : forall orc name e vs xs, find_entry binder_slices name = Some e -> int_fam e = true ->
+  fill orc e false vs = (xs, false) -> map (parse orc (fam e) (bits e)) vs = map Some xs.
+Proof. intros orc name e vs xs F Hf. apply fill_exact; [eapply find_entry_ok; [exact slices_ok|exact F]|exact Hf]. Qed.
 Print Assumptions C08_slice_no_wrap.
 
 (* a failing call leaves its destination unchanged; empty text counts as absent *)
-Theorem C08_unchanged_on_error : forall e v dest x, scalar_call e v dest = (x, true) -> x = dest.
+Theorem C08_unchanged_on_error : forall orc e v dest x, scalar_call orc e v dest = (x, true) -> x = dest.
 Proof. exact scalar_error_unchanged. Qed.
 Print Assumptions C08_unchanged_on_error.
 
-Theorem C08_slice_unchanged_on_error : forall e ff had vs dest x, slice_call e ff had vs dest = (x, true) -> x = dest.
+Theorem C08_slice_unchanged_on_error : forall orc e ff had vs dest x, slice_call orc e ff had vs dest = (x, true) -> x = dest.
 Proof. exact slice_error_unchanged. Qed.
 Print Assumptions C08_slice_unchanged_on_error.
 
-Theorem C08_empty_is_absent : forall e dest, scalar_call e [] dest = (dest, must e).
+Theorem C08_empty_is_absent : forall orc e dest, scalar_call orc e [] dest = (dest, must e).
 Proof. exact scalar_absent. Qed.
 Print Assumptions C08_empty_is_absent.
 
 (* fail-fast: once an error is recorded, no later call of the chain writes anything *)
-Theorem C08_failfast : forall cs, chain true true cs = (map initial cs, true).
+Theorem C08_failfast : forall orc cs, chain orc true true cs = (map initial cs, true).
 Proof. exact failfast_nothing_after_error. Qed.
 Print Assumptions C08_failfast.
 
 (* struct binding: exact value (empty text = zero) or error *)
-Theorem C08_struct_no_wrap : forall k v dest x f b w, find_kind bind_kinds k = Some (f, b, w) -> (f = 0 \/ f = 1) ->
-  bind_kind k v dest = Some (x, false) -> parse f b (match v with [] => lit "0" | _ => v end) = Some x.
+Theorem C08_struct_no_wrap : forall orc k v dest x f b w, find_kind bind_kinds k = Some (f, b, w) -> (f = 0 \/ f = 1) ->
+  bind_kind orc k v dest = Some (x, false) -> parse orc f b (match v with [] => zero_text f | _ => v end) = Some x.
 Proof. exact bind_kind_exact. Qed.
 Print Assumptions C08_struct_no_wrap.
+
+(* float, bool and duration destinations (value binder, scalar and slice, and struct fields): a call that
+   reports no error stored exactly what strconv.ParseFloat / ParseBool / time.ParseDuration returned for that
+   text at the destination's width - for every behaviour of those parsers *)
+Theorem C08_oracle_scalar_exact : forall orc name e v dest x, find_entry binder_scalars name = Some e -> 2 <= fam e ->
+  v <> [] -> scalar_call orc e v dest = (x, false) -> orc (fam e) (bits e) v = Some x.
+Proof. intros orc name e v dest x F Hf. apply scalar_oracle; [|exact Hf].
+  pose proof (find_entry_ok _ _ _ scalars_ok F) as Hok. unfold entry_ok in Hok.
+  apply andb_true_iff in Hok as [Hok _]. apply andb_true_iff in Hok as [_ H3]. apply Z.ltb_lt in H3. exact H3. Qed.
+Print Assumptions C08_oracle_scalar_exact.
+
+Theorem C08_oracle_slice_exact : forall orc name e vs xs, find_entry binder_slices name = Some e -> 2 <= fam e ->
+  fill orc e false vs = (xs, false) -> map (orc (fam e) (bits e)) vs = map Some xs.
+Proof. intros orc name e vs xs F Hf. apply fill_oracle; [|exact Hf].
+  pose proof (find_entry_ok _ _ _ slices_ok F) as Hok. unfold entry_ok in Hok.
+  apply andb_true_iff in Hok as [Hok _]. apply andb_true_iff in Hok as [_ H3]. apply Z.ltb_lt in H3. exact H3. Qed.
+Print Assumptions C08_oracle_slice_exact.
+
+Theorem C08_oracle_struct_exact : forall orc k v dest x f b w, find_kind bind_kinds k = Some (f, b, w) -> 2 <= f ->
+  bind_kind orc k v dest = Some (x, false) -> orc f b (match v with [] => zero_text f | _ => v end) = Some x.
+Proof. exact bind_kind_oracle. Qed.
+Print Assumptions C08_oracle_struct_exact.
 
 Example C08_example :
   parse_int 8 (lit "128") = None /\ parse_int 8 (lit "-128") = Some (-128) /\ parse_int 8 (lit "+127") = Some 127 /\
